@@ -15,8 +15,9 @@ LEXER_BOUNDED = ('sub-lexer contracts found_ok for lex_spaces/lex_tabs/lex_newli
 PROPS = {
     'C01': dict(
         level='proof',
-        verus=['span', 'patterns', 'lexing', 'edit_distance', 'mask'],
+        verus=['span', 'patterns', 'lexing', 'url', 'edit_distance', 'mask', 'document'],
         kani_quick=['lexing.whitespace_5', 'jsdoc.parse_inline_tag_4', 'jsdoc.parse_inline_tag_5'],
+        rac=['document_tiles', 'markdown_tokens', 'comment_frontends'],
         kani_thorough=['lexing.whitespace_5', 'lexing.whitespace_8', 'lexing.hex_4', 'lexing.hostname_4', 'lexing.url_4', 'lexing.email_4',
                        'jsdoc.parse_inline_tag_4', 'jsdoc.parse_inline_tag_5', 'jsdoc.parse_inline_tag_6'],
         unverified=[
@@ -32,9 +33,10 @@ PROPS = {
     ),
     'C02': dict(
         level='proof',
-        verus=['lexing', 'number', 'mask'],
+        verus=['lexing', 'url', 'number', 'mask', 'document'],
         kani_quick=['lexing.whitespace_5'],
         kani_thorough=['lexing.whitespace_5', 'lexing.whitespace_8', 'lexing.hex_4', 'lexing.hostname_4', 'lexing.url_4', 'lexing.email_4'],
+        rac=['document_tiles', 'markdown_tokens'],
         unverified=[
             'Document::parse condensing passes (condense_spaces/newlines/contractions/dotted_initialisms/number_suffixes/ellipsis/latin, match_quotes): not under contract in this round',
             'every front-end other than plain English (Markdown byte/char bookkeeping, Mask::parse, CollapseIdentifiers, IsolateEnglish, comment parsers, HTML, Typst, LHS, git commit)',
@@ -47,6 +49,7 @@ PROPS = {
         level='proof',
         verus=['span', 'suggestion', 'patterns'],
         kani_quick=[], kani_thorough=[],
+        rac=['lint_group_cache'],
         unverified=[
             'that each of the ~290 rules reports a span with start <= end <= text length (match_to_lint / lint bodies are not under contract); run_on_chunk only guarantees them a non-empty in-bounds sub-slice of the chunk',
             'LintGroup::lint chunk-cache rebase call sites (LruCache, BTreeMap<String, Box<dyn Linter>>): only the pull/push arithmetic is proved (lemma_rebase, Span::pulled_by/pushed_by)',
@@ -57,12 +60,13 @@ PROPS = {
     'C08': dict(
         level='model_checking',
         verus=[],
-        kani_quick=['pos_conv.index_to_position_ref_3', 'pos_conv.roundtrip_inner_3', 'pos_conv.roundtrip_single_line_3',
+        kani_quick=['pos_conv.index_to_position_ref_3', 'pos_conv.span_to_range_ref_3', 'pos_conv.roundtrip_inner_3', 'pos_conv.roundtrip_single_line_3',
                     'pos_conv.span_roundtrip_inner_3', 'pos_conv.roundtrip_final_line_3'],
-        kani_thorough=['pos_conv.index_to_position_ref_3', 'pos_conv.roundtrip_inner_3', 'pos_conv.roundtrip_single_line_3',
+        kani_thorough=['pos_conv.index_to_position_ref_3', 'pos_conv.span_to_range_ref_3', 'pos_conv.span_to_range_ref_4', 'pos_conv.roundtrip_inner_3', 'pos_conv.roundtrip_single_line_3',
                        'pos_conv.span_roundtrip_inner_3', 'pos_conv.roundtrip_final_line_3',
                        'pos_conv.index_to_position_ref_4', 'pos_conv.roundtrip_inner_4', 'pos_conv.roundtrip_single_line_4',
                        'pos_conv.span_roundtrip_inner_4', 'pos_conv.index_to_position_ref_5', 'pos_conv.roundtrip_inner_5'],
+        rac=['lsp_glue'],
         unverified=[
             'BOUNDED ONLY: pos_conv.rs is enumerate().filter_map().take().collect() iterator code outside Verus; nothing here is an unbounded proof',
             'lint_to_code_actions / generate_code_actions (Url, HashMap, serde_json, Document): TextEdit construction and code-action lookup are not under contract',
@@ -86,6 +90,7 @@ PROPS = {
         level='proof',
         verus=['edit_distance', 'merged_dictionary'],
         kani_quick=[], kani_thorough=[],
+        rac=['fuzzy_backends'],
         unverified=[
             'agreement of the FST and mutable back-ends; MergedDictionary *_str variants (contains_exact_word_str delegates to contains_word: visible by reading, not decided), fuzzy_match merging, words_iter, word_count, get_word_from_id; fuzzy-search completeness, ordering and caps (fst / levenshtein_automata / hashbrown / itertools code)',
             'strings longer than 254 chars: edit_distance_min_alloc is proved only under that precondition; at 255 its u8 rows overflow, above 255 it indexes out of bounds (D5); call sites (MutableDictionary::fuzzy_match, WithinEditDistance::matches) are not under contract',
@@ -97,6 +102,7 @@ PROPS = {
         verus=['number'],
         kani_quick=['number.suffix_full_domain', 'number.from_chars_roundtrip'],
         kani_thorough=['number.suffix_full_domain', 'number.from_chars_roundtrip'],
+        rac=['number_suffix_rule'],
         unverified=[
             'lex_number (decimal text -> f64 via str::parse, trusted std; exact for integers < 2^53 by IEEE-754)',
             'condense_number_suffixes (merging <number><suffix-word>) and CorrectNumberSuffix::lint iteration (paste!-generated iter_numbers); "after which nothing is reported" (needs re-lexing)',
